@@ -214,6 +214,16 @@ impl Prop for C03 {
                 s.extend(rng.bytes(extra));
                 s
             }
+            4 if rng.chance(1, 60) => {
+                // a header block of thousands of lines
+                let n = *rng.pick(&[2_000usize, 12_000, 30_000]);
+                let mut s = b"PUT /huge HTTP/1.1\r\n".to_vec();
+                for i in 0..n {
+                    s.extend(format!("h{}: v\r\n", i).as_bytes());
+                }
+                s.extend(b"\r\n");
+                s
+            }
             _ => {
                 // many blank lines / lone CRs around the window size
                 let mut s = Vec::new();
@@ -480,6 +490,23 @@ impl Prop for C12 {
                 _ => *rng.pick(&[252u16, 253, 254, 100]),
             })
             .collect();
+        if rng.chance(1, 150) {
+            // descriptor counts that accumulate to exactly 255 / 256 / 257 (and 512) before a request
+            // completes: a one-byte request line first, so that the descriptors arrive while it is pending
+            let total = *rng.pick(&[255u16, 256, 256, 257, 512]);
+            let mut left = total;
+            let mut plan = Vec::new();
+            while left > 0 {
+                let k = left.min(*rng.pick(&[253u16, 253, 128, 100, 3, 1]));
+                plan.push(k);
+                left -= k;
+            }
+            let nplan = plan.len();
+            c.fd_plan = plan;
+            // one read per byte for the first reads, so that every planned batch is delivered before the
+            // first request can complete
+            c.scheds = vec![vec![gen::SOp::Rep(1, nplan + 1)]];
+        }
         c.eof = rng.chance(2, 3);
         c.eof_fds = if c.eof && rng.chance(1, 3) { rng.range(1, 3) as u16 } else { 0 };
         // 0 = pop after every read, keep the files; 1 = pop after every read, drop at once;
